@@ -11,7 +11,7 @@ static struct nv_vit nv_vmap_end(const struct nv_vmap* v) { struct nv_vit i; i.i
 static double nv_percentile(struct nv_vit first, struct nv_vit last, double pct)
 { __CPROVER_assume(nv_pc_calls < 1000); nv_pc_calls = nv_pc_calls + 1; nv_pc_first = first; nv_pc_last = last; nv_pc_pct = pct; nv_pc_ret = nv_nondet_double(); return nv_pc_ret; }
 #define NV_CONTRACT_stats_percentile \
-__CPROVER_requires(__CPROVER_is_fresh(values, sizeof(*values)) && values->n >= 0) \
+__CPROVER_requires(__CPROVER_is_fresh(NV_ARG_stats_percentile_0, sizeof(*NV_ARG_stats_percentile_0)) && NV_ARG_stats_percentile_0->n >= 0) \
 __CPROVER_assigns(nv_pc_calls, nv_pc_first, nv_pc_last, nv_pc_pct, nv_pc_ret) \
-__CPROVER_ensures(nv_pc_calls == __CPROVER_old(nv_pc_calls) + 1 && nv_pc_first.id == values->id && nv_pc_first.pos == 0 && nv_pc_last.id == values->id && nv_pc_last.pos == values->n) \
-__CPROVER_ensures(NV_IDENT(nv_pc_pct, percentage) && NV_IDENT(__CPROVER_return_value, nv_pc_ret))
+__CPROVER_ensures(nv_pc_calls == __CPROVER_old(nv_pc_calls) + 1 && nv_pc_first.id == NV_ARG_stats_percentile_0->id && nv_pc_first.pos == 0 && nv_pc_last.id == NV_ARG_stats_percentile_0->id && nv_pc_last.pos == NV_ARG_stats_percentile_0->n) \
+__CPROVER_ensures(NV_IDENT(nv_pc_pct, NV_ARG_stats_percentile_1) && NV_IDENT(__CPROVER_return_value, nv_pc_ret))
